@@ -3,7 +3,7 @@ from . import cs_conc
 
 
 ALLOC_RUN = {"harness": "halloc", "driver": "allocdrv", "fields": None, "corpus": "conc-alloc",
-             "quick": {"n": 400, "shards": 12}, "thorough": {"n": 4000, "shards": 32}}
+             "quick": {"n": 400, "shards": 12}, "thorough": {"n": 3000, "shards": 32}}
 
 JOBQ_RUN = {"harness": "hjobq", "driver": "jobqdrv", "fields": None, "corpus": "conc-jobq",
             "quick": {"n": 250, "shards": 12}, "thorough": {"n": 2500, "shards": 32}}
